@@ -34,7 +34,10 @@ var MetaFields = map[string]*schema.FieldDefinition{
 			},
 		},
 		Resolve: func(ctx schema.FieldContext) (interface{}, error) {
-			return ctx.Schema.NamedTypes()[ctx.Arguments["name"].(string)], nil
+			if t := ctx.Schema.NamedTypes()[ctx.Arguments["name"].(string)]; t != nil && t.TypeRequiredFeatures().IsSubsetOf(ctx.Features) {
+				return t, nil
+			}
+			return nil, nil
 		},
 	},
 }
